@@ -150,12 +150,17 @@ def check_eval_repr(mido, x, acc, ns, label, eq):
         r = repr(x)
         y = eval(r, dict(ns))
     except Exception as e:
-        acc.violation(f'repr-raises/{label}/{type(e).__name__}',
-                      f'eval(repr(x)) raised {e!r} for repr {repr(x)[:200]!r}',
+        try:
+            shown = repr(x)[:200]
+        except Exception:
+            shown = f'<repr of a {type(x).__name__} raises>'
+        acc.violation(f'repr-raises/{label.split("[")[0]}/{type(e).__name__}',
+                      f'{label}: eval(repr(x)) raised {e!r} for repr {shown!r}',
                       case)
         return
     if not eq(x, y):
-        acc.violation(f'repr/{label}', f'eval({r[:200]!r}) = {y!r}', case)
+        acc.violation(f'repr/{label.split("[")[0]}',
+                      f'{label}: eval({r[:200]!r}) = {y!r:.300}', case)
 
 
 def track_eq(a, b):
